@@ -1,23 +1,84 @@
 package c14
 
 import (
+	"bytes"
+	"encoding/binary"
 	"fmt"
 	"strings"
 
 	"github.com/lianxiangcloud/linkchain/consensus"
+	"github.com/lianxiangcloud/linkchain/libs/ser"
 	"github.com/lianxiangcloud/linkchain/types"
 
 	"lvharness/hx"
 )
 
-// maxMsgSizeBytes of consensus/wal.go (unexported; the model takes it from the regenerated fact Gen.WalFacts)
-const walMaxMsgSize = 1024 * 1024
+// The bounds are unexported constants of package consensus; the harness learns them from the REAL code, cheaply:
+//
+//	decoderBound  the largest length field WALDecoder.Decode does not answer with "length … exceeded" (8-byte headers, no data)
+//	reactorBound  the largest byte string decodeMsg (hook VerifDecodeMsg) does not answer with "Msg exceeds max size"
+//
+// (the model takes both from the regenerated Gen.WalFacts).  wrapperBound is the stated bound on what the WAL adds to a
+// peer message (Props.C14.wal_bound_covers_reactor).
+const wrapperBound = 1024
 
-// OversizeFindingEnabled gates the cases that write a record whose payload is LARGER than maxMsgSizeBytes through the real
-// encoder (WALEncoder.Encode has no size check; WALDecoder.Decode refuses the record, and with it everything behind it):
-// a genuine defect of the tree (proposed/C14-oversize-record.md).  Off until the coordinator decides, so that the
-// unchanged tree stays green; the exact-boundary case (payload == maxMsgSizeBytes, readable) is always generated.
-const OversizeFindingEnabled = false
+var decBoundCache, reactorBoundCache int
+
+func decoderBound() int {
+	if decBoundCache > 0 {
+		return decBoundCache
+	}
+	refused := func(n int) bool {
+		hdr := make([]byte, 8)
+		binary.BigEndian.PutUint32(hdr[4:8], uint32(n))
+		_, err := consensus.NewWALDecoder(bytes.NewReader(hdr)).Decode()
+		return err != nil && strings.Contains(err.Error(), "exceeded maximum")
+	}
+	lo, hi := 1, 1<<26 // accepted .. refused
+	if !refused(hi) {
+		panic("harness: the decoder accepts a 64 MiB length field")
+	}
+	for hi-lo > 1 {
+		m := (lo + hi) / 2
+		if refused(m) {
+			hi = m
+		} else {
+			lo = m
+		}
+	}
+	decBoundCache = lo
+	return lo
+}
+
+func reactorBound() int {
+	if reactorBoundCache > 0 {
+		return reactorBoundCache
+	}
+	refused := func(n int) bool {
+		_, err := consensus.VerifDecodeMsg(make([]byte, n))
+		return err != nil && strings.Contains(err.Error(), "exceeds max size")
+	}
+	lo, hi := 1, 1<<26
+	if !refused(hi) {
+		panic("harness: the reactor accepts a 64 MiB message")
+	}
+	for hi-lo > 1 {
+		m := (lo + hi) / 2
+		if refused(m) {
+			hi = m
+		} else {
+			lo = m
+		}
+	}
+	reactorBoundCache = lo
+	return lo
+}
+
+// OversizeFindingEnabled: the regression cases of fix 0f01527 (a record above the bound used to be written and could never
+// be read back).  bound-1 and bound go through the real encoder and come back; bound+1 is REFUSED by the encoder, the log is
+// unchanged and later records stay readable; a peer message of the reactor's maximum size, wrapped as the node wraps it,
+// is accepted and read back.  Reverting either hunk of the fix fails a monitor of class wal-oversize-record-unreadable.
+const OversizeFindingEnabled = true
 
 // (H) baseWAL as a service: Start / Write / WriteSync / Stop / Wait
 func genSvc(g *hx.Gen) {
@@ -52,23 +113,54 @@ func payloadOfSize(n int) []byte {
 	panic("harness: cannot build a payload of the requested size")
 }
 
-// (I) maxMsgSizeBytes on both sides: a record whose payload is exactly the bound goes through the real encoder and comes
-// back; one byte more is written without complaint and (gated) cannot be read back
+// a msgInfo{BlockPartMessage} record as the node logs a peer message whose wire form (ser, with type) has exactly n bytes
+func wrappedPeerMessage(n int) (recGen, int) {
+	t := fixedTime()
+	l := n - 64
+	for i := 0; i < 8; i++ {
+		var cm consensus.ConsensusMessage = &consensus.BlockPartMessage{Height: 7, Round: 0, Part: &types.Part{Index: 0, Bytes: bytes.Repeat([]byte{0x5a}, l)}}
+		wire := ser.MustEncodeToBytesWithType(&cm)
+		if len(wire) == n {
+			if _, err := consensus.VerifDecodeMsg(wire); err != nil {
+				panic("harness: the reactor refuses its own maximum message: " + err.Error())
+			}
+			tm := consensus.TimedWALMessage{Time: t, Msg: consensus.VerifWALMsg(cm, "0123456789abcdef0123456789abcdef01234567")}
+			p, ok := fix(&tm)
+			if !ok {
+				panic("harness: wrapped peer message is not a codec fixpoint")
+			}
+			return recGen{p, -1, "msginfo-reactor-max"}, len(p) - n
+		}
+		l += n - len(wire)
+	}
+	panic("harness: cannot build a peer message of the requested size")
+}
+
+// (I) the size bound on both sides, through the real encoder: bound-1 and bound come back, bound+1 is refused and leaves
+// the log as it was; the reactor's largest peer message, wrapped, is accepted
 func genBoundary(g *hx.Gen, k int) {
 	t := fixedTime()
+	bound := decoderBound()
 	ops := []string{hx.CaseOp("boundary"), writeOp(endHeight(t, 1)), "sync"}
-	exact := recGen{payloadOfSize(walMaxMsgSize), -1, "roundstate-max"}
+	exact := recGen{payloadOfSize(bound), -1, "roundstate-bound"}
 	ops = append(ops, writeOp(exact), writeOp(endHeight(t, 2)), "sync", "disk", "read idx=0 skip=0", "search h=2 ign=1", "search h=1 ign=0")
-	g.Count("boundary:payload==max")
-	if k%2 == 1 {
-		under := recGen{payloadOfSize(walMaxMsgSize - 1), -1, "roundstate-max-1"}
-		ops = append(ops, "rotate", writeOp(under), writeOp(endHeight(t, 3)), "sync", "disk", "read idx=0 skip=0", "search h=3 ign=1")
-		g.Count("boundary:payload==max-1")
-	}
+	g.Count("boundary:payload==bound")
 	if OversizeFindingEnabled {
-		over := recGen{payloadOfSize(walMaxMsgSize + 1), -1, "roundstate-max+1"}
-		ops = append(ops, writeOp(over), writeOp(endHeight(t, 4)), "sync", "disk", "read idx=0 skip=0", "search h=4 ign=1", "search h=5 ign=1")
-		g.Count("boundary:payload==max+1")
+		over := recGen{payloadOfSize(bound + 1), -1, "roundstate-bound+1"}
+		ops = append(ops, writeOp(over), writeOp(endHeight(t, 3)), "sync", "disk", "read idx=0 skip=0", "search h=3 ign=1", "search h=4 ign=1")
+		g.Count("boundary:payload==bound+1")
+		peer, overhead := wrappedPeerMessage(reactorBound())
+		ops = append(ops, "rotate", writeOp(peer), writeOp(endHeight(t, 4)), "sync", "disk", "read idx=0 skip=0", "read idx=1 skip=0", "search h=4 ign=1")
+		g.Count("boundary:reactor-max-wrapped")
+		g.Count(fmt.Sprintf("boundary:wrapper-overhead=%d", overhead))
+		if overhead > wrapperBound {
+			panic(fmt.Sprintf("harness: the WAL wrapper adds %d bytes to a peer message, more than the stated bound %d", overhead, wrapperBound))
+		}
 	}
-	g.Case(fmt.Sprintf("boundary maxMsgSizeBytes k=%d", k), ops, true)
+	if k%2 == 0 {
+		under := recGen{payloadOfSize(bound - 1), -1, "roundstate-bound-1"}
+		ops = append(ops, writeOp(under), writeOp(endHeight(t, 5)), "sync", "disk", "read idx=0 skip=0", "search h=5 ign=1")
+		g.Count("boundary:payload==bound-1")
+	}
+	g.Case(fmt.Sprintf("boundary bound=%d k=%d", bound, k), ops, true)
 }
